@@ -24,10 +24,17 @@ func youngPredicate(p *core.Program, fn *ssa.Function) bool {
 		return false
 	}
 	bo, ok := ret.Results[0].(*ssa.BinOp)
-	if !ok || (bo.Op != token.GEQ && bo.Op != token.GTR) {
+	if !ok {
 		return false
 	}
-	px, py := p.ProvAt(bo.X, "", bo), p.ProvAt(bo.Y, "", bo)
+	x, y, op := bo.X, bo.Y, bo.Op
+	if op == token.LEQ || op == token.LSS {
+		x, y, op = y, x, flip(op) // height <= start+interval
+	}
+	if op != token.GEQ && op != token.GTR {
+		return false
+	}
+	px, py := p.ProvAt(x, "", bo), p.ProvAt(y, "", bo)
 	return px.HasParam(fn, 0, ".Start") && px.HasParam(fn, 0, ".ProofInterval") && py.HasParam(fn, 1, "") && len(py.DataAtoms()) == 1
 }
 
@@ -41,10 +48,17 @@ func provenPredicate(p *core.Program, fn *ssa.Function) bool {
 		return false
 	}
 	bo, ok := ret.Results[0].(*ssa.BinOp)
-	if !ok || bo.Op != token.GEQ {
+	if !ok {
 		return false
 	}
-	px, py := p.ProvAt(bo.X, "", bo), p.ProvAt(bo.Y, "", bo)
+	x, y, op := bo.X, bo.Y, bo.Op
+	if op == token.LEQ {
+		x, y, op = y, x, token.GEQ // boundary <= lastProven
+	}
+	if op != token.GEQ {
+		return false
+	}
+	px, py := p.ProvAt(x, "", bo), p.ProvAt(y, "", bo)
 	lp := px.DataAtoms()
 	return len(lp) == 1 && lp[0].Kind == "param" && lp[0].Idx == 2 && py.HasParam(fn, 1, "") && py.HasParam(fn, 0, ".ProofInterval") && py.HasParam(fn, 0, ".Start")
 }
@@ -385,18 +399,47 @@ func c03(r *core.Run) {
 	r.Check(len(pull) == 1, "C03/R4", "rewards:single-pull-site", p.Pos(entry.Pos()), "one gauge pull site", fmt.Sprintf("%d gauge pull sites on the reward path, expected 1", len(pull)))
 	if len(pay) == 1 && len(pull) == 1 {
 		bo := pay[0].Op
-		rp := p.ProvAt(bo.Args[1], "", bo.Instr)
+		// the unit: the function (bo.Fn or a caller of it) that receives the size tracker
+		unit := bo.Fn
+		hasTracker := func(fn *ssa.Function) bool {
+			for _, prm := range fn.Params {
+				t := prm.Type().String()
+				if t == "map[string]int64" || t == "*map[string]int64" {
+					return true
+				}
+			}
+			return false
+		}
+		for hops := 0; hops < 3 && !hasTracker(unit); hops++ {
+			next := unit
+			for _, c := range p.CG().In[unit] {
+				if core.ModuleOf(c) == "storage" {
+					next = c
+				}
+			}
+			if next == unit {
+				break
+			}
+			unit = next
+		}
+		res := func(pr core.Prov) core.Prov {
+			if unit == bo.Fn {
+				return pr
+			}
+			return p.ResolveToEntry(pr, unit)
+		}
+		rp := res(p.ProvAt(bo.Args[1], "", bo.Instr))
 		okr := len(rp.DataAtoms()) > 0
 		for _, a := range rp.DataAtoms() {
-			if !(a.Kind == "param" && a.Fn == bo.Fn && strings.HasPrefix(a.Path, "[]")) {
+			if !(a.Kind == "param" && a.Fn == unit && strings.HasPrefix(a.Path, "[]")) {
 				okr = false
 			}
 		}
 		// the parameter is the size tracker: a pointer to map[string]int64
 		r.Check(okr, "C03/R3", "rewards:payout-recipient", p.InstrPos(bo.Instr), "recipient ⊵ keys of the size tracker only", "the payout recipient is not a counted prover: "+rp.String())
-		ap := p.ProvAt(bo.Args[2], "", bo.Instr)
-		okTracker := ap.Any(func(a core.Atom) bool { return a.Kind == "param" && a.Fn == bo.Fn && strings.HasPrefix(a.Path, "[]") })
-		okTotal := ap.Any(func(a core.Atom) bool { return a.Kind == "param" && a.Fn == bo.Fn && a.Path == "" })
+		ap := res(p.ProvAt(bo.Args[2], "", bo.Instr))
+		okTracker := ap.Any(func(a core.Atom) bool { return a.Kind == "param" && a.Fn == unit && strings.HasPrefix(a.Path, "[]") })
+		okTotal := ap.Any(func(a core.Atom) bool { return a.Kind == "param" && a.Fn == unit && a.Path == "" })
 		roundsDown(r, "C03/R9", "rewards:payout-rounds-down", bo.Args[2], p.InstrPos(bo.Instr))
 		r.Check(okTracker && okTotal, "C03/R3", "rewards:payout-amount", p.InstrPos(bo.Instr), "amount ⊵ {tracker entry, total size}", "the payout does not depend on the prover's counted size and the network total")
 		// R4
